@@ -38,6 +38,13 @@ func renderChar(c aChar) string {
 	case "c3":
 		return string(rune(0x4E00 + c.T%512))
 	case "c4":
+		// astral characters of three planes: lead bytes F0 9F (emoji), F0 A0 (CJK extension B), F4 8F (plane 16)
+		switch c.T % 3 {
+		case 1:
+			return string(rune(0x20000 + c.T%64))
+		case 2:
+			return string(rune(0x10FF00 + c.T%64))
+		}
 		return string(rune(0x1F600 + c.T%64))
 	case "sp":
 		return " "
@@ -241,7 +248,7 @@ const allClasses = `{"a","LF","CR","c2","c3","c4"}`
 func checkC02(c *Ctx) {
 	c.Rep.Rule = "TLC enumerates (document, change) pairs and edit histories of TextSync.tla; each is replayed on the real server (didOpen/didChange/didSave/didClose) and the cached bytes read through the verif accessor after every notification; a case is non-trivial when it contains at least one change; distinct = distinct TLC behaviours"
 	c.Rep.Assumptions = []string{
-		"renderer maps abstract characters to concrete UTF-8 (a→ASCII letter, c2→U+00C0.., c3→U+4E00.., c4→U+1F600.., LF, CR) and is trusted",
+		"renderer maps abstract characters to concrete UTF-8 (a→ASCII letter, c2→U+00C0.., c3→U+4E00.., c4→U+1F600.. / U+20000.. / U+10FF00.., LF, CR) and is trusted",
 		"only conformant positions are generated (valid cuts, start<=end); rangeLength is omitted (optional in LSP)",
 		"quiescence after a notification is obtained with a follow-up request (jrpc2 barrier)",
 	}
